@@ -189,7 +189,7 @@ class Agent:
         entry: Dict[str, Any] = {"raw": datagram}
         self.log.append(entry)
         try:
-            msg = snmp.dec_message(datagram)
+            msg = snmp.dec_message(datagram, check_range=True)
         except BerError as exc:
             entry["verdict"] = "malformed: %s" % exc
             raise Drop(entry["verdict"])
@@ -326,7 +326,7 @@ class V3Agent(Agent):
         entry: Dict[str, Any] = {"raw": datagram, "v3": True}
         self.log.append(entry)
         try:
-            msg = snmp.dec_message(datagram)
+            msg = snmp.dec_message(datagram, check_range=True)
         except BerError as exc:
             entry["verdict"] = "malformed: %s" % exc
             raise Drop(entry["verdict"])
@@ -376,7 +376,7 @@ class V3Agent(Agent):
                 clear = plug.decrypt_data(user.priv_key(self.engine_id), self.engine_id, sp["boots"], sp["time"], sp["priv"], msg["encrypted"])
                 # block ciphers leave padding behind the scoped PDU
                 node = ber.parse(bytes(clear))
-                scoped = snmp.dec_scoped_pdu(node)
+                scoped = snmp.dec_scoped_pdu(node, check_range=True)
             except (BerError, ValueError, IndexError) as exc:
                 return finish("decryption-error", self._report(msg, "decryptionErrors", None, 0) if reportable else None)
             entry["decrypted"] = bytes(clear)[: node.end]
